@@ -607,7 +607,7 @@ class StoreRun:
                     if b:
                         return ("probe-" + b[0], "fresh view, " + b[1])
             else:
-                for mkey in ("log", ""):
+                for mkey in ("log", "", "log:out"):
                     b = self.check_read_metadata(view, ki, mkey)
                     if b:
                         return ("probe-" + b[0], "fresh view, " + b[1])
@@ -748,6 +748,9 @@ def alphabet(profile, keys, classes, small=False):
         ops.append(("wmeta", 0, "log", True))
         ops.append(("wmeta", k2, "log", False))
         ops.append(("rmeta", 0, "log"))
+        # a metadata key with characters that are escaped in file names
+        ops.append(("wmeta", 0, "log:out", False))
+        ops.append(("rmeta", 0, "log:out"))
         # the empty string as metadata key (stored with the data object, and on its own)
         ops.append(("wmeta", 0, "", True))
         ops.append(("wmeta", k2, "", False))
